@@ -257,10 +257,29 @@ Definition take_name (s : list N) : option (list (list N) * list N) :=
   | _ => None
   end.
 
-(* AccountTreeNode::from (lax mode creates unknown accounts): parser::is_valid_sub_id on every
-   component.  For names the grammar lets through this leaves: no component starts with '-', '_', '·'. *)
+(* Semantic name rules of lax mode (unknown names are created through these constructors).
+   AccountTreeNode::from: the whole name must not begin or end with white space (str::trim), and every
+   component, Unicode-trimmed, must pass parser::is_valid_sub_id: not empty, first character none of
+   '-' '_' U+00B7 (digits are fine), no white space inside.  U+1680 OGHAM SPACE MARK is an identifier
+   character of the grammar AND White_Space, so these rules bite.  A component that is not the last and
+   ENDS in white space passes AccountTreeNode::from but its synthetic parent does not
+   (AccountTrees::build_account_tree: expect("IE: synthetic parent is invalid") panics); the model
+   rejects such names (the check skips panics). *)
+Definition comp_sem_ok (lead : bool) (p : list N) : bool :=
+  let t := if lead then drop_while is_ws p else p in
+  match t with
+  | c :: _ => negb ((c =? 45)%N || (c =? 95)%N || (c =? 183)%N) && forallb (fun x => negb (is_ws x)) t
+  | [] => false
+  end.
 Definition acct_sem_ok (comps : list (list N)) : bool :=
-  forallb (fun p => match p with c :: _ => negb ((c =? 45)%N || (c =? 95)%N || (c =? 183)%N) | [] => false end) comps.
+  match comps with
+  | [] => false
+  | c0 :: rest => comp_sem_ok false c0 && forallb (comp_sem_ok true) rest
+  end.
+(* Commodity::from = parser::is_valid_id: for identifiers of the grammar this leaves "no white space".
+   Looked up: the posting's commodity and the closing-price commodity; the commodity of a '{..}'
+   opening position is never looked up. *)
+Definition comm_sem_ok (s : list N) : bool := forallb (fun x => negb (is_ws x)) s.
 
 Definition take_digits (n : nat) (s : list N) : option (Z * list N) :=
   let a := firstn n s in
@@ -504,6 +523,13 @@ Definition take_value (s : list N) : option (dec * option raw_unit * list N) :=
       Some (amt, Some (mkUnit cm op cl), r4)
   end.
 
+Definition unit_sem_ok (u : option raw_unit) : bool :=
+  match u with
+  | Some ru => comm_sem_ok (u_comm ru)
+               && match u_closing ru with Some (_, _, c) => comm_sem_ok c | None => true end
+  | None => true
+  end.
+
 Inductive pline : Type :=
 | PL_post (rp : raw_post) (c : option (list N))
 | PL_last (a : list (list N)) (c : option (list N)).
@@ -522,6 +548,7 @@ Definition parse_posting_line (l : list N) : option pline :=
       else if is_nil sp1 then None
       else
         do (amt, u, r3) <- take_value r2;
+        if negb (unit_sem_ok u) then None else
         do cm <- take_comment (snd (span is_sp r3));
         Some (PL_post (mkRawPost acc amt u) cm)
   end.
